@@ -8,6 +8,7 @@ import (
 	"path/filepath"
 	"runtime"
 	"sort"
+	"strconv"
 	"strings"
 	"sync"
 	"time"
@@ -90,6 +91,7 @@ type HarnessResult struct {
 	ValidationMismatch []string
 	Samples    []map[string]interface{}
 	Params     map[string]int
+	Cases      []ValidationCase
 }
 
 func mergeStats(dst *Stats, src *Stats) {
@@ -184,6 +186,10 @@ func runHarness(l *Loaded, spec HarnessSpec, tier string, known map[string]Known
 		}
 	}
 	res := &HarnessResult{Spec: spec, Stats: newStats(), Params: params}
+	maxCases := 6
+	if tier == "thorough" {
+		maxCases = 24
+	}
 	// splitter: deepen until there are enough independent prefixes for the workers
 	var sw *worker
 	var err error
@@ -204,6 +210,7 @@ func runHarness(l *Loaded, spec HarnessSpec, tier string, known map[string]Known
 			return nil, err
 		}
 		sw.e.wantSamples = 3
+		sw.e.rng2 = uint64(seedValue()) + 1
 		sw.run(nil, d)
 		prefixes = sw.e.splitOut
 		if len(prefixes) == 0 || len(prefixes) >= 8*nworkers {
@@ -241,6 +248,13 @@ func runHarness(l *Loaded, spec HarnessSpec, tier string, known map[string]Known
 			if len(res.Samples) < 6 {
 				res.Samples = append(res.Samples, renderSample(e, ps))
 			}
+			if ps.hasModel && len(res.Cases) < maxCases {
+				vc := ValidationCase{Harness: spec.Func, Params: params, Inputs: inputsFromModel(ps.inputs, ps.model, e.ctx)}
+				for _, o := range ps.observes {
+					vc.Expect = append(vc.Expect, e.renderObserve(o, ps.model))
+				}
+				res.Cases = append(res.Cases, vc)
+			}
 		}
 	}
 	collect(sw.e)
@@ -266,7 +280,8 @@ func runHarness(l *Loaded, spec HarnessSpec, tier string, known map[string]Known
 					errs <- err
 					return
 				}
-				w.e.wantSamples = 1
+				w.e.wantSamples = 2
+				w.e.rng2 = uint64(seedValue()) + 77
 				for p := range ch {
 					if !deadline.IsZero() && time.Now().After(deadline) {
 						w.e.stats.Unsupported["wall-clock budget exceeded (exploration incomplete)"]++
@@ -287,6 +302,11 @@ func runHarness(l *Loaded, spec HarnessSpec, tier string, known map[string]Known
 	}
 	res.Wall = time.Since(t0)
 	return res, nil
+}
+
+func seedValue() int {
+	n, _ := strconv.Atoi(os.Getenv("VERIF_SEED"))
+	return n
 }
 
 func renderSample(e *Engine, ps pathSample) map[string]interface{} {
@@ -312,6 +332,129 @@ func renderSample(e *Engine, ps pathSample) map[string]interface{} {
 		out["_covers"] = ps.covers
 	}
 	return out
+}
+
+// ValidationCase: one passing path, as concrete inputs plus the observations the engine predicts.
+type ValidationCase struct {
+	Harness string         `json:"harness"`
+	Params  map[string]int `json:"params"`
+	Inputs  []ReplayInput  `json:"inputs"`
+	Expect  []string       `json:"-"`
+}
+
+func inputsFromModel(ins []inputRec, model map[string]uint64, ctx *Ctx) []ReplayInput {
+	memo := map[*Term]uint64{}
+	if model == nil {
+		model = map[string]uint64{}
+	}
+	var out []ReplayInput
+	for _, in := range ins {
+		ri := ReplayInput{Name: in.Name, Kind: in.Kind}
+		switch in.Kind {
+		case "bytes":
+			ri.Bytes = make([]int, len(in.Terms))
+			for i, t := range in.Terms {
+				ri.Bytes[i] = int(ctx.Eval(t, model, memo) & 0xff)
+			}
+		default:
+			val := ctx.Eval(in.Terms[0], model, memo)
+			if in.W > 0 && in.W < 64 && in.Kind != "byte" {
+				ri.Int = sext(val, in.W)
+			} else {
+				ri.Int = int64(val)
+			}
+		}
+		out = append(out, ri)
+	}
+	return out
+}
+
+// nativeValidate replays passing paths natively in one `go test` run per package and compares
+// the observations (ZZ-OBS lines) and the absence of assertion failures / panics.
+func nativeValidate(l *Loaded, pkgRel string, cases []ValidationCase) (validated int, mismatches []string, err error) {
+	if len(cases) == 0 {
+		return 0, nil, nil
+	}
+	tmp, err := os.MkdirTemp("", "zzvalidate")
+	if err != nil {
+		return 0, nil, err
+	}
+	defer os.RemoveAll(tmp)
+	batch := filepath.Join(tmp, "batch.json")
+	b, _ := json.Marshal(map[string]interface{}{"cases": cases})
+	os.WriteFile(batch, b, 0o644)
+	out, err := runNative(l, pkgRel, tmp, []string{"ZZ_REPLAY_BATCH=" + batch})
+	if err != nil {
+		return 0, nil, err
+	}
+	parts := strings.Split(out, "ZZ-REPLAY-START ")
+	if len(parts)-1 != len(cases) {
+		return 0, []string{fmt.Sprintf("native batch ran %d of %d cases: %s", len(parts)-1, len(cases), tail(out, 15))}, nil
+	}
+	for i, c := range cases {
+		sec := parts[i+1]
+		var obs []string
+		bad := ""
+		for _, ln := range strings.Split(sec, "\n") {
+			ln = strings.TrimSpace(ln)
+			switch {
+			case strings.HasPrefix(ln, "ZZ-OBS "):
+				obs = append(obs, ln)
+			case strings.HasPrefix(ln, "ZZ-ASSERT-FAIL"), strings.HasPrefix(ln, "ZZ-PANIC"), strings.HasPrefix(ln, "ZZ-ASSUME-FAILED"):
+				bad = ln
+			}
+		}
+		if bad != "" {
+			mismatches = append(mismatches, fmt.Sprintf("%s: engine path passes, native says %q (inputs %v)", c.Harness, bad, c.Inputs))
+			continue
+		}
+		same := len(obs) == len(c.Expect)
+		if same {
+			for k := range obs {
+				if obs[k] != c.Expect[k] {
+					same = false
+				}
+			}
+		}
+		if !same {
+			mismatches = append(mismatches, fmt.Sprintf("%s: observations differ: engine %v native %v", c.Harness, c.Expect, obs))
+			continue
+		}
+		validated++
+	}
+	return validated, mismatches, nil
+}
+
+// runNative builds the package's harnesses natively (overlay, tag verif) and runs TestZZReplay.
+func runNative(l *Loaded, pkgRel, tmp string, env []string) (string, error) {
+	funcs := l.harnessFuncs(modPath + "/" + pkgRel)
+	pkgName := l.pkgs[modPath+"/"+pkgRel].Pkg.Name()
+	var sb strings.Builder
+	sb.WriteString("//go:build verif\n\npackage " + pkgName + "\n\nimport (\n\t\"testing\"\n\tzz \"" + modPath + "/internal/zzverif\"\n)\n\n")
+	sb.WriteString("func TestZZReplay(t *testing.T) {\n\tzz.RunReplay(t, map[string]func(){\n")
+	for _, f := range funcs {
+		sb.WriteString("\t\t\"" + f + "\": " + f + ",\n")
+	}
+	sb.WriteString("\t})\n}\n")
+	testFile := filepath.Join(tmp, "zz_replay_test.go")
+	os.WriteFile(testFile, []byte(sb.String()), 0o644)
+	repl := map[string]string{}
+	for v, r := range l.ov {
+		repl[v] = r
+	}
+	repl[filepath.Join(repoDir, pkgRel, "zz_verif_replay_test.go")] = testFile
+	ovb, _ := json.Marshal(map[string]interface{}{"Replace": repl})
+	ovFile := filepath.Join(tmp, "overlay.json")
+	os.WriteFile(ovFile, ovb, 0o644)
+	cmd := exec.Command("go", "test", "-tags", "verif", "-vet=off", "-count=1", "-overlay", ovFile, "-run", "^TestZZReplay$", "-v", "./"+pkgRel)
+	cmd.Dir = repoDir
+	cmd.Env = append(goEnv(), env...)
+	out, _ := cmd.CombinedOutput()
+	s := string(out)
+	if !strings.Contains(s, "ZZ-REPLAY-START") {
+		return s, fmt.Errorf("native run did not start: %s", tail(s, 20))
+	}
+	return s, nil
 }
 
 // ---------- replay ----------
@@ -371,32 +514,9 @@ func nativeReplay(l *Loaded, rf *ReplayFile, path string) (reproduced bool, outp
 		return false, "", err
 	}
 	defer os.RemoveAll(tmp)
-	funcs := l.harnessFuncs(modPath + "/" + rf.Pkg)
-	pkgName := l.pkgs[modPath+"/"+rf.Pkg].Pkg.Name()
-	var sb strings.Builder
-	sb.WriteString("//go:build verif\n\npackage " + pkgName + "\n\nimport (\n\t\"testing\"\n\tzz \"" + modPath + "/internal/zzverif\"\n)\n\n")
-	sb.WriteString("func TestZZReplay(t *testing.T) {\n\tzz.RunReplay(t, map[string]func(){\n")
-	for _, f := range funcs {
-		sb.WriteString("\t\t\"" + f + "\": " + f + ",\n")
-	}
-	sb.WriteString("\t})\n}\n")
-	testFile := filepath.Join(tmp, "zz_replay_test.go")
-	os.WriteFile(testFile, []byte(sb.String()), 0o644)
-	repl := map[string]string{}
-	for v, r := range l.ov {
-		repl[v] = r
-	}
-	repl[filepath.Join(repoDir, rf.Pkg, "zz_verif_replay_test.go")] = testFile
-	ovb, _ := json.Marshal(map[string]interface{}{"Replace": repl})
-	ovFile := filepath.Join(tmp, "overlay.json")
-	os.WriteFile(ovFile, ovb, 0o644)
-	cmd := exec.Command("go", "test", "-tags", "verif", "-vet=off", "-count=1", "-overlay", ovFile, "-run", "^TestZZReplay$", "-v", "./"+rf.Pkg)
-	cmd.Dir = repoDir
-	cmd.Env = append(goEnv(), "ZZ_REPLAY="+path)
-	out, _ := cmd.CombinedOutput()
-	output = string(out)
-	if !strings.Contains(output, "ZZ-REPLAY-START") {
-		return false, output, fmt.Errorf("native replay did not start")
+	output, err = runNative(l, rf.Pkg, tmp, []string{"ZZ_REPLAY=" + path})
+	if err != nil {
+		return false, output, err
 	}
 	switch rf.Kind {
 	case "assert":
